@@ -71,7 +71,7 @@ def run(ctx):
                 why = ""
             (ctx.ok if ok else ctx.bad)("B-KEY", "B-KEY:segments.%s@%s" % (m, b.key.rsplit("::", 1)[-1]), F.call_loc(t),
                 why if ok else "Reassembly.segments is accessed (%s) in %s with a key that is not the packet's BufId" % (m, b.pretty))
-    ctx.require(n >= 4, "B-KEY: only %d accesses of Reassembly.segments found" % n)
+    ctx.require(n >= 3, "B-KEY: only %d accesses of Reassembly.segments found" % n)
 
     # ---------------------------------------------------------------- B-EPOCH
     g = cfg(mc)
